@@ -739,6 +739,7 @@ func BaseForms() []BaseForm {
 		{Name: "second-server-ignored", Servers: []*Server{{URL: "/v1"}, {URL: "/v2"}}, Expected: "/v1"},
 		{Name: "flag-root-over-servers", Servers: []*Server{{URL: "https://h.example/api/v1"}}, Flag: "/"},
 		{Name: "flag-trailing-slash", Flag: "/x/"},
+		{Name: "server-variable-used-twice", Servers: []*Server{{URL: "https://{region}.api.example.com/{region}/{version}", Variables: map[string]*ServerVariable{"region": {Default: "eu"}, "version": {Default: "v2"}}}}, Expected: "/eu/v2"},
 	}
 }
 
